@@ -57,7 +57,7 @@ def rluw(bound):
     return d
 
 
-for (steps, bound, conv, tier) in ((1, 'usize::MAX', False, 'quick'), (2, 'usize::MAX', False, 'quick'), (3, 'usize::MAX', False, 'thorough'),
+for (steps, bound, conv, tier) in ((1, 'usize::MAX', False, 'quick'), (2, 'usize::MAX', False, 'quick'), (3, 'usize::MAX', False, 'deep'),
                                    (2, '7', True, 'deep'), (3, '7', True, 'deep'), (2, '1 << 20', True, 'deep'), (3, '1 << 20', True, 'deep'), (2, 'usize::MAX', True, 'deep')):
     inst(P, 'c16_rl_steps%d_%s_%s' % (steps, {'usize::MAX': 'any', '7': 'tiny', '1 << 20': 'small'}[bound], 'convert' if conv else 'observe'),
          'c16::rl_builder(%d, %s, %s)' % (steps, bound, 'true' if conv else 'false'), tier=tier, unwind=10, unwindset=rluw(bound), stubs=RLSTUBS,
